@@ -257,7 +257,7 @@ def meta_keys(ctx: Ctx):
                              '' if ok else f'ResultMeta({kwn}=...) does not derive from the stored {key!r}', construct=f'resultmeta:{kwn}')
 
 
-@rule('C06.CODECS', ['C06', 'C09', 'C07'], min_instances=3)
+@rule('C06.CODECS', ['C06', 'C09', 'C07', 'C08'], min_instances=3)
 def codecs(ctx: Ctx):
     """json.dump/'w' <-> json.load/'r', pickle.dump/'wb' <-> pickle.load/'rb'; every JSON encoding of the
     serialised task uses the same key-order policy as the one hashed into the cache key."""
@@ -346,7 +346,7 @@ def save_writes_both(ctx: Ctx):
                  '' if okt else "metadata['task'] is not the serialisation of the saved task", construct='meta-task')
 
 
-@rule('C06.ISCACHED-CHAIN', ['C06', 'C08'])
+@rule('C06.ISCACHED-CHAIN', ['C06', 'C08', 'C12', 'C13'])
 def iscached_chain(ctx: Ctx):
     """Lab.is_cached(task) -> task._lt.cache.is_cached(self._storage, task) -> storage.exists(task.cache_key)."""
     lab_ic = ctx.P.func('lab.Lab.is_cached')
